@@ -242,7 +242,9 @@ def run(ctx: Ctx) -> None:
         from redun.value import get_type_registry  # noqa: F401
     except ImportError as e:
         raise MachineryError(f"redun.value.get_type_registry not importable: {e}")
-    w = int(os.environ.get("VERIF_WORKERS", "0")) or "auto"
+    # quick universes are a few thousand states: 4 workers do (16 JVM workers only add scheduling
+    # pressure); the thorough universes use TLC's default
+    w = int(os.environ.get("VERIF_WORKERS", "0")) or ctx.pick(4, "auto")
     pool = ThreadPoolExecutor(max_workers=4)
     bg = lambda name, cfg, **kw: pool.submit(run_tlc, "common/ValueHash_Gen.tla", cfg, ctx.scratch / name, **kw)  # noqa: E731
 
